@@ -32,7 +32,7 @@ func draw(t *rapid.T) sim.ChainCase {
 	g := sim.GenChain(t, sim.GenOpts{
 		Net:       sim.NetOpts{MaxForkHeight: rapid.SampledFrom([]int{6, 12, 25, 40}).Draw(t, "forkSpan"), V2Only: rapid.IntRange(0, 5).Draw(t, "v2only") == 0},
 		MinBlocks: 6, MaxBlocks: max, Reorgs: true, MaxReorg: 8, Profile: sim.Profile{Contracts: rapid.IntRange(0, 3).Draw(t, "contractWeight"), MaxTxns: 6},
-		OnBlock:   sameBlockScenarios,
+		OnBlock: sameBlockScenarios,
 	})
 	c, err := g.Case.Normalize()
 	if err != nil {
@@ -51,6 +51,17 @@ func sameBlockScenarios(g *sim.Gen, b *sim.Builder) {
 	case 1: // create and revise
 		if b.V1Form() {
 			b.V1ReviseCreatedInBlock()
+		}
+	case 5: // the same contract revised twice (or revised and renewed) inside one block
+		if b.V1Revise() {
+			b.V1ReviseAgainInBlock()
+		}
+		if b.V2Revise() {
+			if rapid.Bool().Draw(g.T, "againOrRenew") {
+				b.V2ReviseAgainInBlock()
+			} else {
+				b.V2RenewRevisedInBlock()
+			}
 		}
 	case 2:
 		b.V1Pay()
@@ -114,7 +125,7 @@ func liveAll(cs consensus.State, st *sim.Store) error {
 func check(c sim.ChainCase) error {
 	rec := stats.G()
 	hist := map[string]applied{} // key: height/blockID
-	var stack []applied           // per height (index h-1)
+	var stack []applied          // per height (index h-1)
 	maxDepth, depth, reapplied, competing := 0, 0, 0, 0
 	sawCreateSpend, sawContract := false, false
 	key := func(h uint64, id types.BlockID) string { return fmt.Sprintf("%d/%v", h, id) }
